@@ -1016,7 +1016,10 @@ const RT = {
       case '-': return this.F('(fp.sub RNE ' + x + ' ' + y + ')');
       case '*': return this.F('(fp.mul RNE ' + x + ' ' + y + ')');
       case '/': return this.F('(fp.div RNE ' + x + ' ' + y + ')');
-      case '%': return unsupported('floating-point %');
+      case '%':
+        // fmod by the constant 1 (the only shape the natives use): x - trunc(x), exact, with the sign of x when it is zero; Inf % 1 = NaN
+        if (b === 1) return this.F('(let ((r (fp.sub RNE ' + x + ' (fp.roundToIntegral RTZ ' + x + ')))) (ite (fp.isZero r) (ite (fp.isNegative ' + x + ') ' + fpLit(-0) + ' ' + fpLit(0) + ') r))');
+        return unsupported('floating-point %');
       case '<': return this.B('(fp.lt ' + x + ' ' + y + ')');
       case '<=': return this.B('(fp.leq ' + x + ' ' + y + ')');
       case '>': return this.B('(fp.gt ' + x + ' ' + y + ')');
